@@ -1,5 +1,6 @@
 (* C06 — Alias resolution is total, all-or-nothing and cycle-safe on any import graph.
-   Property theorems only: each closed by [exact] of a lemma from Proofs/, followed by Print Assumptions. *)
+   Property theorems only: each closed by [exact] of a lemma from Proofs/, followed by Print Assumptions.
+   The model describes the code after the repairs of findings C06-F1, F2, F4 and F5 (F3 stays known). *)
 From Coq Require Import List String Bool Arith.
 From Verif Require Import Lib.Sexp Model.C06_alias Proofs.C06_alias.
 Import ListNotations.
@@ -9,15 +10,18 @@ Open Scope list_scope. Open Scope nat_scope.
    aliases walked through, whatever the state of the passed-through flags): the nested recursion
    resolve_target -> _resolve_target -> get_member -> Alias.members -> final_target -> target -> resolve_target
    returns with the fuel #aliases+1 / 2#aliases+3 (no hang, no stack overflow: EFuel excluded), its outcome is success,
-   AliasResolutionError or CyclicAliasError and nothing else, on success the alias is resolved, every
-   passed-through flag is restored and links that were already stored are not touched. *)
+   AliasResolutionError or CyclicAliasError and nothing else; on success the alias is resolved, on failure its link is
+   still unset; every passed-through flag is restored, links that were already stored are not touched, and complete
+   targets stay complete. *)
 Theorem C06_resolve_terminates :
   forall coll h i p tp pa w,
   wf coll h = true -> nth_error h i = Some (NAlias p tp None pa w) ->
   let h' := fst (resolve_top coll h i) in
   let r := snd (resolve_top coll h i) in
   (r = Ok tt /\ resolved_in h' i \/ (exists q, r = Err (EARE q)) \/ r = Err ECyc) /\
-  wf coll h' = true /\ flags h' = flags h /\ (forall j t, link_of h j = Some t -> link_of h' j = Some t).
+  (forall e, r = Err e -> link_of h' i = None) /\
+  wf coll h' = true /\ flags h' = flags h /\ (forall j t, link_of h j = Some t -> link_of h' j = Some t) /\
+  (targets_complete h = true -> targets_complete h' = true).
 Proof. exact resolve_top_total. Qed.
 Print Assumptions C06_resolve_terminates.
 
@@ -29,50 +33,50 @@ Theorem C06_deref_outcomes :
   let h' := fst (deref_top coll h i) in
   let r := snd (deref_top coll h i) in
   ((exists o p c ms, r = Ok o /\ nth_error h' o = Some (NObj p c ms)) \/ (exists q, r = Err (EARE q)) \/ r = Err ECyc) /\
-  wf coll h' = true /\ flags h' = flags h /\ (forall j t, link_of h j = Some t -> link_of h' j = Some t).
+  wf coll h' = true /\ flags h' = flags h /\ (forall j t, link_of h j = Some t -> link_of h' j = Some t) /\
+  (targets_complete h = true -> targets_complete h' = true).
 Proof. exact deref_total. Qed.
 Print Assumptions C06_deref_outcomes.
 
-(* GriffeLoader.resolve_aliases(implicit=True, external=False) on every well-formed heap: the while loop stops within
-   #aliases+2 passes, the tree recursion of resolve_module_aliases and all nested dereferencing return (EFuel
-   excluded), flags restored, stored links untouched.  The only exceptions that can leave the call are the two alias
-   errors (raised by the eager `member.final_target.path` of a debug message); no such escape was ever observed. *)
+(* GriffeLoader.resolve_aliases(implicit=True, external=False) on every well-formed heap: the while loop (which now
+   continues while aliases get resolved) stops within #aliases+2 passes, the tree recursion of
+   resolve_module_aliases and all nested dereferencing return (EFuel excluded), flags restored, stored links untouched.
+   The only exceptions that can leave the call are the two alias errors (raised by the eager
+   `member.final_target.path` of a debug message); no such escape was ever observed. *)
 Theorem C06_resolve_aliases_terminates :
   forall coll h,
   wf coll h = true ->
   let h' := fst (resolve_aliases coll h) in
   let r := snd (resolve_aliases coll h) in
   ((exists u it, r = Ok (u, it)) \/ (exists q, r = Err (EARE q)) \/ r = Err ECyc) /\
-  wf coll h' = true /\ flags h' = flags h /\ (forall j t, link_of h j = Some t -> link_of h' j = Some t).
+  wf coll h' = true /\ flags h' = flags h /\ (forall j t, link_of h j = Some t -> link_of h' j = Some t) /\
+  (targets_complete h = true -> targets_complete h' = true).
 Proof. exact resolve_aliases_total. Qed.
 Print Assumptions C06_resolve_aliases_terminates.
 
-(* FULL STATEMENT of all-or-nothing ("a chain is never left partially resolved"):
-     forall coll h i, wf coll h = true -> i unresolved ->
-       resolve_target either resolves i with every stored chain complete, or fails leaving the heap as it was.
-   It is FALSE of the unchanged code.  Two refutations (heaps abstracted from real packages, replayed on the
-   implementation on every run as known findings C06-F4 and C06-F3): *)
-Theorem C06_all_or_nothing_refuted_passthrough :
-  exists coll h i,
-    wf coll h = true /\ no_passed h = true /\ unique_paths h = true /\ chains_complete h = true /\
-    snd (resolve_top coll h i) = Err (EARE "p.b.x"%string) /\
-    link_of h i = None /\ link_of (fst (resolve_top coll h i)) i = Some (RVirt "p.m.x"%string 5) /\
-    chains_complete (fst (resolve_top coll h i)) = false.
-Proof. exact all_or_nothing_refuted_passthrough. Qed.
-Print Assumptions C06_all_or_nothing_refuted_passthrough.
-
-Theorem C06_all_or_nothing_refuted_preresolved :
-  exists coll h i,
-    wf coll h = true /\ no_passed h = true /\ unique_paths h = true /\ direct coll h = true /\
-    snd (resolve_top coll h i) = Err (EARE "p.a.x"%string) /\
-    link_of h i = None /\ link_of (fst (resolve_top coll h i)) i = Some (RReal 7).
-Proof. exact all_or_nothing_refuted_preresolved. Qed.
-Print Assumptions C06_all_or_nothing_refuted_preresolved.
-
-(* The strongest true statement: modulo KnownGap_passthrough (direct = false: some target path runs through an alias
-   member or a virtual link is stored) and KnownGap_preresolved (chains_complete = false: some stored link does not
-   lead to an object), for heaps of any size and shape (cycles, dangling targets, self imports, flags raised). *)
+(* All-or-nothing ("a chain is never left partially resolved"), for every well-formed heap, modulo the one remaining
+   known gap KnownGap_preresolved := targets_complete h = false (C06-F3: wildcard expansion stores links onto chains
+   that do not reach an object; expansion is outside the model).  The former refutations (C06-F4 walk through an alias
+   member, and resolve_target storing a link onto a pre-stored dangling chain) are repaired: the hypothesis `direct`
+   is gone. *)
 Theorem C06_all_or_nothing_modulo_known :
+  forall coll h i p tp pa w,
+  wf coll h = true -> targets_complete h = true -> nth_error h i = Some (NAlias p tp None pa w) ->
+  let h' := fst (resolve_top coll h i) in
+  let r := snd (resolve_top coll h i) in
+  targets_complete h' = true /\ (r = Ok tt -> resolved_in h' i) /\ (forall e, r = Err e -> link_of h' i = None).
+Proof. exact all_or_nothing_modulo_known. Qed.
+Print Assumptions C06_all_or_nothing_modulo_known.
+
+Theorem C06_resolve_aliases_keeps_targets_complete :
+  forall coll h,
+  wf coll h = true -> targets_complete h = true -> targets_complete (fst (resolve_aliases coll h)) = true.
+Proof. exact resolve_aliases_keeps_targets_complete. Qed.
+Print Assumptions C06_resolve_aliases_keeps_targets_complete.
+
+(* Sharper form where no target path runs through an alias member (direct) and paths are unique: a failed
+   resolve_target changes nothing at all, a successful one keeps every invariant. *)
+Theorem C06_failed_resolution_changes_nothing :
   forall coll h i p tp pa w,
   wf coll h = true -> direct coll h = true -> chains_complete h = true -> unique_paths h = true ->
   nth_error h i = Some (NAlias p tp None pa w) ->
@@ -81,8 +85,8 @@ Theorem C06_all_or_nothing_modulo_known :
   (r = Ok tt /\ resolved_in h' i /\ wf coll h' = true /\ direct coll h' = true /\ chains_complete h' = true /\
    unique_paths h' = true /\ flags h' = flags h) \/
   (exists e, r = Err e /\ h' = h).
-Proof. exact all_or_nothing_modulo_known. Qed.
-Print Assumptions C06_all_or_nothing_modulo_known.
+Proof. exact failed_resolution_changes_nothing. Qed.
+Print Assumptions C06_failed_resolution_changes_nothing.
 
 (* where stored chains are complete, every resolved alias dereferences, without any mutation, to a real object *)
 Theorem C06_resolved_means_dereferenceable :
@@ -92,24 +96,15 @@ Theorem C06_resolved_means_dereferenceable :
 Proof. exact complete_deref. Qed.
 Print Assumptions C06_resolved_means_dereferenceable.
 
-(* FULL STATEMENT of the fixpoint ("resolving again is a no-op"):
-     forall coll h, wf coll h = true -> resolve_aliases (fst (resolve_aliases h)) returns the same set and heap.
-   FALSE of the unchanged code for the return value (consequence of C06-F3): *)
-Theorem C06_fixpoint_refuted :
-  exists coll h,
-    wf coll h = true /\ no_passed h = true /\ unique_paths h = true /\ direct coll h = true /\
-    snd (resolve_aliases coll h) = Ok (["p.c.x"; "p.a.x"]%string, 2) /\
-    snd (resolve_aliases coll (fst (resolve_aliases coll h))) = Ok (["p.a.x"%string], 2).
-Proof. exact fixpoint_refuted. Qed.
-Print Assumptions C06_fixpoint_refuted.
-
-(* PARTIAL: what is proved is the conditional form - once one pass over the collection changes nothing,
-   resolve_aliases is a no-op returning that pass' unresolved set within 2 iterations.  Missing: that on heaps free of
-   the two known gaps the last pass of the first call is such a quiet pass (needs "a failed resolve_target keeps
-   failing after more links are stored"); the harness checks the model's own second call on every explored heap. *)
+(* PARTIAL (fixpoint, "resolving again is a no-op"): what is proved is the conditional form - once one pass over the
+   collection changes nothing, resolve_aliases is a no-op returning that pass' unresolved set within 2 iterations.
+   Missing for the unconditional statement: that the last pass of a call is such a quiet pass, which needs "a failed
+   resolve_target keeps failing after more links are stored".  The former refutation of the return value (C06-F3/F4)
+   no longer holds of the repaired model (Proofs: preresolved_repaired); the harness checks the model's and the
+   implementation's second and third call on every explored heap. *)
 Theorem C06_fixpoint_partial :
-  forall coll h u,
-  one_pass coll h = (h, Ok u) ->
+  forall coll h u rsv,
+  wf coll h = true -> one_pass coll h = (h, Ok (u, rsv)) ->
   exists it, resolve_aliases coll h = (h, Ok (u, it)) /\ it <= 2.
 Proof. exact fixpoint_after_quiet_pass. Qed.
 Print Assumptions C06_fixpoint_partial.
@@ -124,3 +119,13 @@ Theorem C06_hypotheses_satisfiable :
   snd (resolve_aliases w_plain_coll w_plain_heap) = Ok (["p.z"%string], 2).
 Proof. exact hypotheses_satisfiable. Qed.
 Print Assumptions C06_hypotheses_satisfiable.
+
+(* the witnesses of the repaired findings: the alias is left unlinked, the second call returns the first call's set *)
+Theorem C06_former_witnesses_repaired :
+  snd (resolve_top w_through_coll w_through_heap 3) = Err (EARE "p.b.x"%string) /\
+  link_of (fst (resolve_top w_through_coll w_through_heap 3)) 3 = None /\
+  targets_complete w_pre_heap = false /\
+  link_of (fst (resolve_top w_pre_coll w_pre_heap 6)) 6 = None /\
+  snd (resolve_aliases w_pre_coll (fst (resolve_aliases w_pre_coll w_pre_heap))) = snd (resolve_aliases w_pre_coll w_pre_heap).
+Proof. exact former_witnesses_repaired. Qed.
+Print Assumptions C06_former_witnesses_repaired.
